@@ -1,1 +1,128 @@
+/-
+C08 — the fill operator gives the one-shot answer for every way of cutting the bucket rows into
+chunks (helper lemmas; the theorem is `OG.C08.fill_chunk_invariant`).
+-/
 import OG.C08.Stream
+
+namespace OG.C08.Stream
+
+variable {γ : Type} [DecidableEq γ]
+
+def closeOpt (m : FillMode) (width last : Nat) : Option (FillSt γ) → List (BRow γ)
+  | some s => closeGroup m width last s
+  | none => []
+
+theorem fillRows_nil (m : FillMode) (width last : Nat) (st : Option (FillSt γ)) :
+    fillRows m width last st [] = ([], st) := rfl
+
+theorem fillRows_cons (m : FillMode) (width last : Nat) (st : Option (FillSt γ)) (r : BRow γ)
+    (rs : List (BRow γ)) :
+    fillRows m width last st (r :: rs)
+      = ((fillRow m width last st r).1 ++ (fillRows m width last (some (fillRow m width last st r).2) rs).1,
+         (fillRows m width last (some (fillRow m width last st r).2) rs).2) := by
+  simp [fillRows]
+
+theorem fillRows_append (m : FillMode) (width last : Nat) (xs ys : List (BRow γ)) (st : Option (FillSt γ)) :
+    fillRows m width last st (xs ++ ys)
+      = ((fillRows m width last st xs).1 ++ (fillRows m width last (fillRows m width last st xs).2 ys).1,
+         (fillRows m width last (fillRows m width last st xs).2 ys).2) := by
+  induction xs generalizing st with
+  | nil => simp [fillRows_nil]
+  | cons x xs ih =>
+    simp only [List.cons_append, fillRows_cons, ih, List.append_assoc]
+
+/-- after a row the state is in the row's group. -/
+theorem fillRow_group (m : FillMode) (width last : Nat) (st : Option (FillSt γ)) (r : BRow γ) :
+    (fillRow m width last st r).2.g = r.g := by
+  unfold fillRow
+  cases st with
+  | none => rfl
+  | some s =>
+    by_cases h : s.g = r.g <;> simp [h]
+
+/-- after a non-empty chunk the state is in the group of its last row. -/
+theorem fillRows_group (m : FillMode) (width last : Nat) (rs : List (BRow γ)) (st : Option (FillSt γ))
+    (r : BRow γ) :
+    ∃ s, (fillRows m width last st (r :: rs)).2 = some s ∧ s.g = ((r :: rs).getLast (by simp)).g := by
+  induction rs generalizing st r with
+  | nil =>
+    refine ⟨(fillRow m width last st r).2, ?_, ?_⟩
+    · simp [fillRows_cons, fillRows_nil]
+    · simpa using fillRow_group m width last st r
+  | cons r2 rs ih =>
+    obtain ⟨s, hs, hg⟩ := ih (some (fillRow m width last st r).2) r2
+    refine ⟨s, ?_, ?_⟩
+    · rw [fillRows_cons]; exact hs
+    · simpa using hg
+
+/-- a row of another group first closes the group of the state. -/
+theorem fillRow_other (m : FillMode) (width last : Nat) (s : FillSt γ) (r : BRow γ) (h : s.g ≠ r.g) :
+    fillRow m width last (some s) r
+      = (closeGroup m width last s ++ (fillRow m width last none r).1, (fillRow m width last none r).2) := by
+  simp [fillRow, h, List.append_assoc]
+
+theorem fillRows_other (m : FillMode) (width last : Nat) (s : FillSt γ) (r : BRow γ)
+    (rs : List (BRow γ)) (h : s.g ≠ r.g) :
+    fillRows m width last (some s) (r :: rs)
+      = (closeGroup m width last s ++ (fillRows m width last none (r :: rs)).1,
+         (fillRows m width last none (r :: rs)).2) := by
+  rw [fillRows_cons, fillRows_cons, fillRow_other m width last s r h]
+  simp [List.append_assoc]
+
+theorem fillStreamGo_cons (m : FillMode) (width last : Nat) (st : Option (FillSt γ))
+    (c : List (BRow γ)) (cs : List (List (BRow γ))) :
+    fillStreamGo m width last st (c :: cs)
+      = if sameTag c cs.head? then
+          (fillRows m width last st c).1 ++ fillStreamGo m width last (fillRows m width last st c).2 cs
+        else
+          (fillRows m width last st c).1 ++ closeOpt m width last (fillRows m width last st c).2
+            ++ fillStreamGo m width last none cs := by
+  simp only [fillStreamGo, closeOpt]
+  split <;> rfl
+
+/-- the stream from any state. -/
+theorem fillStreamGo_eq (m : FillMode) (width last : Nat) :
+    ∀ (cs : List (List (BRow γ))), (∀ c ∈ cs, c ≠ []) → ∀ (st : Option (FillSt γ)),
+      fillStreamGo m width last st cs
+        = (fillRows m width last st cs.flatten).1
+          ++ closeOpt m width last (fillRows m width last st cs.flatten).2 := by
+  intro cs
+  induction cs with
+  | nil =>
+    intro _ st
+    cases st <;> simp [fillStreamGo, fillRows_nil, closeOpt]
+  | cons c cs ih =>
+    intro hne st
+    have hc : c ≠ [] := hne c (by simp)
+    have hrest : ∀ c ∈ cs, c ≠ [] := fun c hc => hne c (by simp [hc])
+    obtain ⟨x, xs, rfl⟩ := List.exists_cons_of_ne_nil hc
+    obtain ⟨s1, hs1, hg1⟩ := fillRows_group m width last xs st x
+    rw [fillStreamGo_cons, List.flatten_cons, fillRows_append]
+    cases cs with
+    | nil =>
+      have hs : sameTag (x :: xs) ([] : List (List (BRow γ))).head? = false := by
+        unfold sameTag
+        split <;> simp_all
+      rw [hs]
+      simp [fillStreamGo, fillRows_nil, closeOpt]
+    | cons c2 cs2 =>
+      have hc2 : c2 ≠ [] := hrest c2 (by simp)
+      obtain ⟨y, ys, rfl⟩ := List.exists_cons_of_ne_nil hc2
+      have hsame : sameTag (x :: xs) (((y :: ys) :: cs2).head?)
+          = decide (((x :: xs).getLast (by simp)).g = y.g) := by
+        unfold sameTag
+        rw [List.getLast?_eq_some_getLast (by simp)]
+        simp
+      rw [hsame]
+      by_cases hk : ((x :: xs).getLast (by simp)).g = y.g
+      · simp only [hk, decide_true, if_true]
+        rw [ih hrest]
+        simp [List.append_assoc]
+      · simp only [hk, decide_false, Bool.false_eq_true, ↓reduceIte]
+        rw [ih hrest, hs1]
+        have hne' : s1.g ≠ y.g := by rw [hg1]; exact hk
+        simp only [List.flatten_cons, List.cons_append]
+        rw [fillRows_other m width last s1 y (ys ++ cs2.flatten) hne']
+        simp [closeOpt, List.append_assoc]
+
+end OG.C08.Stream
